@@ -47,3 +47,4 @@ import translate_c11
 import translate_suborder
 import translate_relpair
 import translate_relset
+import translate_relsets
